@@ -242,6 +242,16 @@ theorem insertions_keep_union_find_consistent {s s'' : Snap} (hok : Snap.ufOK s 
     Snap.ufOK s'' = true :=
   Snap.inserts_keep_ufOK hok hi
 
+/-- the leader and group halves of the snapshot invariant survive a modelled insertion: in the state after, every live class's
+union-find entry has exactly the class slots as keys (dead classes hold no node), and every class stores generators that are
+permutations of its slots — for the classes from before (unchanged) and for the new one -/
+theorem insertion_keeps_leaders_and_groups {s s' : Snap} {n syn : Node} {f2o : SlotMap} {data : String} {a : AppId}
+    (hok : Snap.AddOK s) (hl : ∀ c ∈ s.classes, Snap.leaderOK s c = true) (hg : ∀ c ∈ s.classes, Grp.Valid c.slots c.gens)
+    (h : Snap.addNew s n f2o syn data = some (s', a)) :
+    (∀ c ∈ s'.classes, Snap.leaderOK s' c = true) ∧ (∀ c ∈ s'.classes, Grp.Valid c.slots c.gens) ∧
+    ∀ c ∈ s'.classes, c ∈ s.classes ∨ (c.id = s.uf.length ∧ c.slots = SlotMap.keys f2o) :=
+  ⟨Snap.add_keeps_leaderOK hok hl h, Snap.add_keeps_groups_valid hok hg h, fun _ hc => Snap.add_classes hok h hc⟩
+
 /-- non-vacuity: on the empty e-graph the node `f2($8, $12)` (variant 7, two slot fields) is a miss; with the fresh slots
 `101, 105` handed in, the model allocates class 0 -/
 example : ((Snap.addNew { uf := [], classes := [] } { v := 7, fields := [.slot 8, .slot 12] } [(101, 8), (105, 12)]
